@@ -131,12 +131,12 @@ def formatters_render_captured_state(ck):
     ck.ob("C03-O10", "(formatters)", not bad, "%d library functions reachable from the %d format() implementations, none samples a clock or the current thread" % (n, len(roots)), key="format|ambient-summary")
 
 
-def no_pointer_identity(ck):
+def no_pointer_identity(ck, rid="C03-O9"):
     """after the hand-off file / function / category live in per-message buffers: their addresses identify nothing (and are
     recycled by the allocator), so nothing in the library may use a `const char *` as a key"""
     import re
     F = ck.facts
-    ck.rule("C03-O9", "no container keyed by a raw `const char *` (QHash / QMap / QSet / std::map / std::unordered_map): a memo keyed on the address of a source-location string returns "
+    ck.rule(rid, "no container keyed by a raw `const char *` (QHash / QMap / QSet / std::map / std::unordered_map): a memo keyed on the address of a source-location string returns "
                       "another message's entry once the hand-off has re-homed the strings")
     KEYED = re.compile(r"\b(QHash|QMultiHash|QMap|QMultiMap|QSet|QCache|std::map|std::unordered_map|std::set|std::unordered_set)<(const )?char ?(const )?\*")
     hits = []
@@ -156,10 +156,10 @@ def no_pointer_identity(ck):
                 if KEYED.search(v.get("type") or ""):
                     hits.append((sitestr(f, d), v["type"]))
     for site, t in hits:
-        ck.ob("C03-O9", site, False, "%s is keyed by the address of a C string: behind the asynchronous hand-off the strings of different messages share recycled addresses, so a lookup returns another "
+        ck.ob(rid, site, False, "%s is keyed by the address of a C string: behind the asynchronous hand-off the strings of different messages share recycled addresses, so a lookup returns another "
               "message's entry" % t[:80], key="pointer-key|%s" % site.split("(")[-1].rstrip(")"))
     if not hits:
-        ck.ob("C03-O9", "src/qtlogger", True, "%d functions and the library's classes: no container keyed by a raw const char *" % n, key="pointer-key|none")
+        ck.ob(rid, "src/qtlogger", True, "%d functions and the library's classes: no container keyed by a raw const char *" % n, key="pointer-key|none")
 
 
 def copy_ctor(ck):
